@@ -81,10 +81,30 @@ func emit(m M) {
 func guard(f func() M) (res M) {
 	defer func() {
 		if r := recover(); r != nil {
-			res = M{"panic": classify(r), "panic_msg": fmt.Sprint(r)}
+			res = M{"panic": classify(r), "panic_msg": fmt.Sprint(r), "panic_at": panicSite()}
 		}
 	}()
 	return f()
+}
+
+// panicSite names the innermost fin-protoc function on the panicking stack.
+func panicSite() string {
+	lines := strings.Split(string(debug.Stack()), "\n")
+	seenPanic := false
+	for _, l := range lines {
+		if strings.HasPrefix(l, "panic(") {
+			seenPanic = true
+			continue
+		}
+		if seenPanic && strings.Contains(l, "fin-protoc/internal/") && !strings.HasPrefix(l, "\t") {
+			fn := l[strings.LastIndex(l, "/")+1:]
+			if i := strings.LastIndex(fn, "("); i > 0 {
+				fn = fn[:i]
+			}
+			return fn
+		}
+	}
+	return "?"
 }
 
 func classify(r interface{}) string {
@@ -186,10 +206,7 @@ func dumpTree(t antlr.Tree, sb *strings.Builder) {
 
 func opTree(text string) M {
 	p, stream, _ := parser.NewPacketDslParserByContent(text)
-	listener := parser.NewSyntaxErrorListener()
-	p.RemoveErrorListeners()
-	p.AddErrorListener(listener)
-	tree := p.Packet()
+	tree, listener := parser.ParseAll(p)
 	var sb strings.Builder
 	dumpTree(tree, &sb)
 	// how many default-channel tokens did the start rule leave unconsumed?
@@ -394,19 +411,21 @@ func dumpModel(bm *model.BinaryModel) M {
 	return M{"options": bm.Options, "config": cfg, "metadata": md, "packets": pk, "packetsMap": keys, "root": root, "diags": diags}
 }
 
-// parse returns (model, syntaxErrorCount); model nil when syntax errors were reported.
+// parse runs the REAL parser.ParseFile on a scratch file: (model, 0) or (nil, n>0) on syntax errors.
 func parse(text string) (*model.BinaryModel, int) {
-	p, _, _ := parser.NewPacketDslParserByContent(text)
-	listener := parser.NewSyntaxErrorListener()
-	p.RemoveErrorListeners()
-	p.AddErrorListener(listener)
-	tree := p.Packet()
-	if listener.HasErrors() {
-		return nil, len(listener.Errors)
+	f, err := os.CreateTemp("", "fpv-*.dsl")
+	if err != nil {
+		panic(err)
 	}
-	visitor := parser.NewPacketDslVisitor()
-	bm := tree.Accept(visitor).(*model.BinaryModel)
-	return bm, 0
+	name := f.Name()
+	defer os.Remove(name)
+	f.WriteString(text)
+	f.Close()
+	res, err := parser.ParseFile(name)
+	if err != nil {
+		return nil, 1
+	}
+	return res.(*model.BinaryModel), 0
 }
 
 func opModel(text string) M {
